@@ -187,7 +187,11 @@ impl Server {
                         "🤖 {}",
                         self.database.graph().get_ref_text(key).unwrap_or_default()
                     ),
-                    insert_text: Some(format!("[⏳]({})", new_key)),
+                    // written relative to the directory of the note the link is inserted into
+                    insert_text: Some(format!(
+                        "[⏳]({})",
+                        new_key.to_rel_link_url(&current_key.parent())
+                    )),
                     filter_text: Some(format!(
                         "_{}",
                         self.database.graph().get_ref_text(key).unwrap_or_default()
